@@ -440,7 +440,11 @@ Inductive op :=
 | IL (sid : N)       (* DHCPv6 RELEASE *)
 | Restart
 | IT (sid : N)
-| IA (sid : N).
+| IA (sid : N)
+| IM (sid : N)       (* a SOLICIT arrives while the session waits for AAA / creation: only its DUID is recorded *)
+| IC (sid vrf : N) (s4 o4 s6 : option N) (spd : option item) (o6 od : option N).
+    (* component level: handleAAAResponse builds the allocator context from all AAA attributes before any pending
+       packet is replayed (at function level ID / IS build it on first use, with their own family's attributes) *)
 
 Inductive pires := PiAck (a : option N) | PiNak (a : N) | PiRej | PiNoReply.
 Inductive idres := IdNil | IdErr | IdTold (a : N) | IdPanic.
@@ -663,6 +667,15 @@ Definition is_ctx (s : sess) (vrf : N) (s6 : option N) (spd : option item) (o6 o
            None (match s_prof6 s with Some _ => s6 | None => None end)
            (match s_prof6 s with Some _ => spd | None => None end) None None None false
            None None None.
+Definition ic_ctx (s : sess) (vrf : N) (s4 o4 s6 : option N) (spd : option item) (o6 od : option N) : sess :=
+  mkSess (s_id s) false (s_prof4 s) (s_prof6 s) (s_mac s) true true vrf
+         (match s_prof4 s with Some _ => o4 | None => None end)
+         (match s_prof6 s with Some _ => o6 | None => None end)
+         (match s_prof6 s with Some _ => od | None => None end)
+         (match s_prof4 s with Some _ => s4 | None => None end)
+         (match s_prof6 s with Some _ => s6 | None => None end)
+         (match s_prof6 s with Some _ => spd | None => None end) None None None (s_ipcp s)
+         None None None.
 (* handleDHCPv6Solicit records the client's DUID in the session (handleDHCPv6Request does not) *)
 Definition mark_duid (isreq : bool) (s : sess) : sess :=
   if isreq then s else
@@ -859,6 +872,22 @@ Definition step (v : variant) (st : state) (o : op) : list (state * out) :=
   | IA sid =>
       match find_sess sid st with
       | Some s => if negb (s_ppp s) then [(mkState (st_reg st) (st_sess st) (prov_age (st_prov st) (s_mac s)), OIa)]
+                  else skip st
+      | None => skip st
+      end
+  | IM sid =>
+      (* processDHCPv6Packet stores sess.DHCPv6DUID before it looks at the AAA state *)
+      match find_sess sid st with
+      | Some s => if negb (s_ppp s)
+                  then [(mkState (st_reg st) (put_sess (mark_duid false s) (st_sess st)) (st_prov st), OSkip)]
+                  else skip st
+      | None => skip st
+      end
+  | IC sid vrf s4 o4 s6 spd o6 od =>
+      match find_sess sid st with
+      | Some s => if negb (s_ppp s) && s_live s && negb (s_started s)
+                  then [(mkState (st_reg st) (put_sess (ic_ctx s vrf s4 o4 s6 spd o6 od) (st_sess st)) (st_prov st),
+                         OSkip)]
                   else skip st
       | None => skip st
       end
